@@ -172,27 +172,42 @@ Lemma rf_py_wr_summary_empty : forall k L st, pl_idx (py_lvl_get st L) = [] -> p
   py_wr_summary (S k) pd L st = PyOk st.
 Proof. intros k L st Hi Hs. cbn [py_wr_summary]. rewrite Hi, Hs. reflexivity. Qed.
 
-Lemma rf_sim_close_level : forall t0 L pre cs blks x st st',
+Lemma rf_sim_close_level_gen : forall wfuel t0 L pre cs blks x st st', (16 <= wfuel)%nat ->
   rf_S d pos0 t0 L pre cs blks x st -> (1 <= L <= 15)%nat ->
   py_wr_summary (16 - L) pd L st = PyOk st' ->
-  exists cs', rf_S d pos0 t0 (S L) pre (cs ++ cs') blks (wm_fsr_summary_close summN d x (N.of_nat L)) st'.
+  exists cs', rf_S d pos0 t0 (S L) pre (cs ++ cs') blks
+    (match wm_f_get_level (wm_fx_fsr x) (N.of_nat L) with
+     | None => x
+     | Some _ => let x1 := wm_fsr_wr_summary summN wfuel d (N.of_nat L) x in
+                 wm_fx_set_fsr x1 (wm_f_set_level (wm_fx_fsr x1) (N.of_nat L) None)
+     end) st'.
 Proof.
-  intros t0 L pre cs blks x st st' HS HL Hpy. unfold wm_fsr_summary_close.
+  intros wfuel t0 L pre cs blks x st st' Hwf HS HL Hpy.
   pose proof HS as (HR & HF & Hout).
   destruct (wm_f_get_level (wm_fx_fsr x) (N.of_nat L)) as [lv|] eqn:Elv.
-  - destruct (rf_sim_wr_summary summ1 summN d pos0 t0 L Hpos0 Hsid Hg_idx Hg_sum (16 - L) L wm_level_count pre cs blks x st st' lv HS
-               ltac:(lia) ltac:(lia) eq_refl ltac:(change wm_level_count with 16%nat; lia) Elv Hpy) as (cs' & HS').
-    exists cs'. destruct HS' as (HR' & HF' & Hout').
-    split; [|split; [exact HF'|exact Hout']].
+  - destruct (rf_sim_wr_summary summ1 summN d pos0 t0 L Hpos0 Hsid Hg_idx Hg_sum (16 - L) L wfuel pre cs blks x st st' lv HS
+               ltac:(lia) ltac:(lia) eq_refl ltac:(lia) Elv Hpy) as (cs' & HS').
+    exists cs'. cbv zeta. set (x1 := wm_fsr_wr_summary summN wfuel d (N.of_nat L) x) in *. clearbody x1.
+    destruct HS' as (HR' & HF' & Hout').
+    split; [|split; [exact HF'|unfold rf_out in *; cbn [wm_fx_set_fsr wm_fx_base]; exact Hout']].
     destruct HR' as [Rbok Rtok Rty Rlvlen Rpos Rnz Rheads Rdhead Rlvls Rdts].
     constructor; cbn [wm_fx_base wm_fx_tk wm_fx_fsr wm_fx_set_fsr]; try assumption.
     + rewrite rf_set_level_len. exact Rlvlen.
     + intros M HM. rewrite rf_get_set_level_neq by lia. apply Rlvls. lia.
   - exists []. rewrite app_nil_r.
-    pose proof (R_lvls _ _ _ _ _ HR L ltac:(lia)) as Hrel. rewrite Elv in Hrel. destruct Hrel as (_ & _ & C & D).
+    pose proof (R_lvls _ _ _ _ _ _ HR L ltac:(lia)) as Hrel. rewrite Elv in Hrel. destruct Hrel as (_ & _ & C & D).
     replace (16 - L)%nat with (S (15 - L)) in Hpy by lia.
     rewrite rf_py_wr_summary_empty in Hpy by (try exact D; apply C; exact D). injection Hpy as <-.
     apply (rf_S_weaken t0 L); [lia|exact HS].
+Qed.
+
+Lemma rf_sim_close_level : forall t0 L pre cs blks x st st',
+  rf_S d pos0 t0 L pre cs blks x st -> (1 <= L <= 15)%nat ->
+  py_wr_summary (16 - L) pd L st = PyOk st' ->
+  exists cs', rf_S d pos0 t0 (S L) pre (cs ++ cs') blks (wm_fsr_summary_close summN d x (N.of_nat L)) st'.
+Proof.
+  intros t0 L pre cs blks x st st' HS HL Hpy.
+  exact (rf_sim_close_level_gen wm_level_count t0 L pre cs blks x st st' (Nat.le_refl 16) HS HL Hpy).
 Qed.
 
 Lemma rf_sim_close_loop : forall t0 k L pre cs blks x st st',
